@@ -21,7 +21,14 @@ impl StateMachine<'_> {
             // Print the "Binary files" line verbatim, if there was no "diff" line, or it
             // listed different files but was not followed by header minus and plus lines.
             // This can happen in output of standalone diff or git diff --no-index.
-            if self.minus_file.is_empty() && self.plus_file.is_empty() {
+            // Likewise if the header of the current file pair has been written already: the line
+            // belongs to a later file of a `diff -r` stream (which has no "diff" line of its own),
+            // or to a renamed file whose header was due at the "rename to" line.
+            if self.minus_file.is_empty() && self.plus_file.is_empty()
+                || self.current_file_pair.is_some()
+                    && self.handled_diff_header_header_line_file_pair == self.current_file_pair
+            {
+                self.painter.paint_buffered_minus_and_plus_lines();
                 self.emit_line_unchanged()?;
                 self.handled_diff_header_header_line_file_pair
                     .clone_from(&self.current_file_pair);
